@@ -273,8 +273,12 @@ theorem plan_float_name {d : Defs} {K : Nat → Kind} {D : Nat → Bool}
 
 theorem plan_var {d : Defs} {K : Nat → Kind} {D : Nat → Bool} {s : Store} {occ v : Nat} {t : MTy}
     (hk : K v = .tv) (ht : tyOk K t = true) :
-    PlanOk d K D (if occurs s v occ t = true then Plan.fail else Plan.bind v t) := by
+    PlanOk d K D (match occurs s v occ t with
+      | none => Plan.stuck
+      | some true => Plan.fail
+      | some false => Plan.bind v t) := by
   split
+  · trivial
   · trivial
   · exact slot_tv hk ht
 
